@@ -110,12 +110,14 @@ def real_cases(task):
     perms = list(itertools.permutations(errors)) if len(errors) <= 4 else \
         [tuple(rng.sample(errors, len(errors))) for _ in range(24)]
     out = []
-    pn = any(isinstance(e.instance, str) and not list(e.relative_path) and "propertyNames" in list(e.absolute_schema_path) for e in errors)
+    # errors raised below a propertyNames keyword carry the property NAME as their instance, filed at the object's own path
+    pn_paths = [tag_path(list(e.path)) for e in errors if isinstance(e.instance, str) and "propertyNames" in list(e.absolute_schema_path)]
+    pn = bool(pn_paths)
     for n, perm in enumerate(perms[:24]):
         rec = project(js, list(perm), instance=I, probe_index=(n == 0))
         rec["id"] = i * 100 + n
         out.append((rec, {"draft": d, "schema": S, "instance": I, "errors_in_arrival_order": [(list(e.path), e.validator) for e in perm],
-                          "has_property_name_error": pn}))
+                          "has_property_name_error": pn, "property_name_error_paths": pn_paths}))
     return out
 
 
